@@ -8,6 +8,7 @@ import GFS.Spec.NameSpec
 import GFS.Spec.ChunkSpec
 import GFS.Model.HostBucket
 import GFS.Generated.Facts
+import GFS.Model.FsDisk
 /-
   gfsdriver: one request per input line, one answer per output line.
   Answer format:  <model observation> TAB <spec observation or "-">
@@ -117,6 +118,46 @@ def handle (toks : List String) : String :=
       else p
     let (sb, sk) := routeSplit specPath
     s!"path={toHex rw} bucket={toHex b} key={toHex k}\tbucket={toHex sb} key={toHex sk}"
+  | ["diskcut", op, cut, oldBody, oldMd, newBody, newMd] =>
+    -- Model/FsDisk: what a server started after a kill reads for the key of the operation in
+    -- flight.  old = "~": the key had no object; otherwise an acknowledged upload (body, headers)
+    -- made at clock 1; the operation in flight runs at clock 100, resolution 3 (Props/C15D.Fresh).
+    let md5 := Md5.md5
+    let k : Bytes := [107]
+    let d0 : FsDisk.Disk := if oldBody == "~" then [] else
+      FsDisk.step md5 3 [] (.put k (fromHex oldBody) (parseMeta oldMd) 1)
+    let showObs (r : Res FsDisk.Obs) : String := match r with
+      | .ok o => s!"obj {toHex o.body} {toHex o.hash} meta={showMeta o.md}"
+      | .err c => s!"err {c.name}"
+      | .panic _ => "panic"
+    let cutOf : Option FsDisk.Cut :=
+      if op == "put" then
+        let pc : Option FsDisk.PutCut := match cut.splitOn ":" with
+          | ["beforeCreate"] => some .beforeCreate
+          | ["afterCreate"] => some .afterCreate
+          | ["midWrite", n] => some (.midWrite (parseNat n))
+          | ["afterWrite"] => some .afterWrite
+          | ["metaTruncated"] => some .metaTruncated
+          | ["done"] => some .done
+          | _ => none
+        pc.map fun c => FsDisk.Cut.put k (fromHex newBody) (parseMeta newMd) 100 c
+      else if op == "del" then
+        let dc : Option FsDisk.DelCut := match cut with
+          | "beforeRemove" => some .beforeRemove
+          | "afterRemove" => some .afterRemove
+          | "done" => some .done
+          | _ => none
+        dc.map fun c => FsDisk.Cut.del k c
+      else none
+    match cutOf with
+    | none => "bad-op\t-"
+    | some c =>
+      let got := FsDisk.readKey md5 3 (FsDisk.crash md5 d0 c) k
+      let old := FsDisk.readKey md5 3 d0 k
+      let fin := match c with
+        | .put k b m now _ => FsDisk.readKey md5 3 (FsDisk.crash md5 d0 (.put k b m now .done)) k
+        | .del k _ => FsDisk.readKey md5 3 (FsDisk.crash md5 d0 (.del k .done)) k
+      showObs got ++ "\t" ++ (if got == old || got == fin then "atomic" else "torn")
   | ["status", code] =>
     -- the HTTP status `ErrorCode.Status()` assigns to a code, from the table re-read from error.go
     (match GFS.Generated.statusTable.find? (fun p => p.1 == code) with
